@@ -122,6 +122,9 @@ func genC03(t *rapid.T) ModelCase {
 	o.Sinks = chancePct(t, 20, "sinks")
 	o.OutputSize = o.Sinks && chancePct(t, 50, "sized")
 	o.Langs = chancePct(t, 25, "langs")
+	// client flags (also with indices beyond 255) set and reset by the calls around the
+	// comparison lines: they are not the flags the comparison itself keeps
+	o.Flags = chancePct(t, 25, "flags")
 	a := GenApp(t, o)
 	modelFriendly(a)
 	return ModelCase{App: a, Inputs: genModelHistory(t, a, 8), Mode: modelModes[uniformN(t, len(modelModes), "mode")]}
